@@ -271,3 +271,57 @@ class CallEvaluate(Contract):
 
 from contracts.C18 import DataSetInit  # noqa: E402
 CONTRACTS += [DataSetInit(), CallEvaluate()]
+
+
+# --------------------------------------------------------------------------- _process_performed_classification: the learned estimators are exactly those of this learning call
+# "index k of the density table means class k" (the arg-max is taken over self._classificators in list order) holds only if, after learning, the table holds exactly one
+# estimator per class of THIS learning call, in class order -- whatever an earlier (possibly aborted) attempt left in the object.
+class ProcessPerformedClassification(Contract):
+    file, qualname = FILE, "Classification._process_performed_classification"
+    total = False
+
+    def __init__(self, K):
+        self.K = K
+        self.label = "Classification._process_performed_classification[%d classes]" % K
+
+    def inputs(self, S):
+        n0, m0 = S.int("old_estimators"), S.int("old_de_objects")
+        S.assume(z3.And(n0 >= 0, m0 >= 0))
+        c = classification(S)
+        c.fields["_classificators"] = S.seq("classificators0", n0, P.U, kind="list")        # any leftovers of the object's history
+        c.fields["_de_objects"] = S.seq("de_objects0", m0, P.U, kind="list")
+        c.fields["_performed_classification"] = S.bool("performed0")
+        c.fields["_time_used"] = S.real("time_used0")
+        ops = Seq("list", [Seq("tuple", [Opaque(S.const("combi%d" % k, P.U)), Opaque(S.const("de%d" % k, P.U))]) for k in range(self.K)])
+        return {"self": c, "operation_list": ops, "start_time": S.real("start_time"), "print_metrics": False}
+
+    def pre(self, S, env):
+        f = env["self"].fields
+        return [("classes-aligned-with-tested-samples", VV(f["_calculated_classes_testset"].len()) == VV(rows(f["_testing_data"])[0].len()))]
+
+    def post(self, S, old, env, result):
+        f = env["self"].fields
+        ops = old["operation_list"].items
+        out = []
+        for name, j in (("_classificators", 0), ("_de_objects", 1)):
+            v = f.get(name)
+            if not isinstance(v, Seq):
+                return [Cl("estimator-table-is-a-list", False, prop=True)]
+            want = [ops[k].items[j].term for k in range(self.K)]
+            if v.concrete:
+                okc = len(v.items) == self.K and all(isinstance(x, Opaque) for x in v.items)
+                out.append(z3.And(*[x.term == w for x, w in zip(v.items, want)]) if okc else z3.BoolVal(False))
+            else:
+                out.append(z3.And(VV(v.len()) == self.K, *[z3.Select(v.arr, k) == want[k] for k in range(self.K)]))
+        flag = f["_performed_classification"]
+        return [Cl("estimator-table-is-a-list", True, prop=True),
+                Cl("one-estimator-per-class-of-this-learning-call-in-class-order", out[0], prop=True),
+                Cl("density-objects-likewise", out[1]),
+                Cl("marked-as-learned", flag if not isinstance(flag, bool) else z3.BoolVal(flag), prop=True)]
+
+    @staticmethod
+    def model_to_input(model):
+        return {"kind": "C19.learn_twice"}
+
+
+CONTRACTS += [ProcessPerformedClassification(2), ProcessPerformedClassification(3)]
